@@ -40,6 +40,14 @@ func ProjPanic(r *Result, blank bool) string {
 	return fmt.Sprintf("esc=%q status=%d complete=%v acq=%d rel=%d", esc, r.Status, r.Complete, r.Acq, r.Rel)
 }
 
+// ProjAllButLedger is the whole canonical result without the ledger deltas (under concurrency they
+// cannot be attributed to one request).
+func ProjAllButLedger(r *Result, blank bool) string {
+	c := *r
+	c.Acq, c.Rel = 0, 0
+	return c.Canon(blank)
+}
+
 // ProjLedger: what the compressor provider saw while the request was served.
 func ProjLedger(r *Result, blank bool) string {
 	return fmt.Sprintf("acq=%d rel=%d anomalies=%d", r.Acq, r.Rel, r.DblRel)
